@@ -11,7 +11,8 @@ INSIDE the `ok` payload):
                  (`raw` = true: boundaries as `date_range` returned them, the model drops the early start;
                  `durations` null: whole horizon)
 * `periodic`     `{problem: asset problem, labels:[[dur,per,sub_per]]}` →
-                 `{problem: asset problem, out:[j], groups: n, lead:[j], generic: bool}`
+                 `{problem: asset problem, out:[j], groups: n, lead:[j], generic: bool, partition: bool}`
+                 (`partition`: the hypothesis of `C13.makePeriodic_is_merge` holds — `partitionCheck`)
                  (`generic`: the result equals `mergeProblem` along the final leader map — the object of `C13.merge_columns`) | `{"err":"assert"|"index"|"chain"}`
 * `extend_minor` `{mapping:[row], coarse:{grid:{pts,idx,dt,Dt,df}, minor:[[i]]}, dt_fine:[r]}` →
                  `{mapping:[row]}` | `{"err":"index"}`
@@ -53,7 +54,8 @@ def handlePeriodic (op : String) (j : Json) : Option (Except String Json) :=
       let st := mergeAll P labels
       pure (Json.mkObj [("problem", jAsset Q), ("out", jList jNat st.out),
         ("groups", jNat (groupKeys P.mapping labels).length),
-        ("lead", jList jNat st.leadOf), ("generic", Json.bool (agreesWithGeneric P labels))])
+        ("lead", jList jNat st.leadOf), ("generic", Json.bool (agreesWithGeneric P labels)),
+        ("partition", Json.bool (partitionCheck P.mapping labels))])
   | "extend_minor" => do
     let M ← field j "mapping" (getList getMapRow)
     let cgj ← j.getObjVal? "coarse"
